@@ -419,7 +419,8 @@ let run_expr = function
                    full c ^ "|" ^ full o ^ "|" ^ String.concat "&" (List.map (fun (a, b) -> full a ^ "~" ^ full b) l)
                  | None -> "none")
               | k -> "ERR op " ^ k)) (split_on ';' prog) in
-    String.concat " ; " out
+    let bad_shape = Array.exists (fun e -> not (shape_ok_b e)) regs in
+    String.concat " ; " out ^ (if bad_shape then " ; SHAPE-VIOLATED" else "")
   | _ -> "ERR bad expr line"
 
 
